@@ -73,6 +73,10 @@ def replay(run, cache, tv):
                  ("SO3dcm*R3", L.SO3Dcm * L.R3, np.concatenate([so3_param("dcm", h), r3]), np.concatenate([omega, r3])),
                  ("R3*SO3quat*SO3quat", L.R3 * L.SO3Quat * L.SO3Quat,
                   np.concatenate([r3, so3_param("quat", h), so3_param("quat", hp)]), np.concatenate([r3, omega, omega])),
+                 # the SAME group object in non-adjacent positions
+                 ("R3*SO3quat*R3", L.R3 * L.SO3Quat * L.R3, np.concatenate([r3, so3_param("quat", h), -2 * r3]), np.concatenate([r3, omega, -2 * r3])),
+                 ("SO3quat*R3*SO3quat", L.SO3Quat * L.R3 * L.SO3Quat,
+                  np.concatenate([so3_param("quat", h), r3, so3_param("quat", [1, 0, 0, 0])]), np.concatenate([omega, r3, np.zeros(3)])),
                  ("SO2*SO3quat*R2", L.SO2 * L.SO3Quat * L.R2,
                   np.concatenate([[th], so3_param("quat", h), rho]), np.concatenate([[th], omega, rho]))]
         for name, G, a, want in cases:
@@ -120,6 +124,8 @@ def main():
     tier = sys.argv[1] if len(sys.argv) > 1 else "quick"
     run = Run(PID, tier)
     cache = FnCache()
+    from harness.lie import prelude as _prelude
+    _prelude(run, report=())
     if "--replay" in sys.argv:
         d = json.load(open(sys.argv[sys.argv.index("--replay") + 1]))
         replay(run, cache, d["data"]["tv"])
